@@ -274,11 +274,15 @@ Section Conf.
       match obj with VIface dyn _ => deftag_of S dyn | _ => 0 end.
 
     (** fields written and read one after the other, each required, none looking ahead past
-        a following element with its own tag: [keeps] for each, in order *)
+        a following element with its own tag (a pointer or slice field has a tag no later field
+        of the run has, as in [wf_fields]): [keeps] for each, in order *)
     Fixpoint conf_required (st : vstate) (fl : list field) (vl : list value) : bool :=
       match fl, vl with
       | [], [] => true
-      | fd :: fl', x :: vl' => pos_field fd && negb (f_omit fd) && keeps st (f_ty fd) (f_tag fd) x && conf_required st fl' vl'
+      | fd :: fl', x :: vl' =>
+        pos_field fd && negb (f_omit fd) &&
+        (if lookahead (f_ty fd) then forallb (fun g => negb (f_tag g =? f_tag fd)) fl' else true) &&
+        keeps st (f_ty fd) (f_tag fd) x && conf_required st fl' vl'
       | _, _ => false
       end.
 
@@ -314,6 +318,9 @@ Section Conf.
              tags_distinct [f_tag f0; f_tag f1; f_tag f2; f_tag f3; object_tag obj] &&
              keeps st (f_ty f0) (f_tag f0) uid && keeps st (f_ty f1) (f_tag f1) rep &&
              keeps st (f_ty f2) (f_tag f2) kwt && keeps st (f_ty f3) (f_tag f3) (VList attrs) &&
+             (* an empty omitempty element is not written: it must hold what d.Opt leaves there *)
+             (if is_zero rep then value_eqb rep (zero_of S 8 (f_ty f1)) else true) &&
+             (if is_zero kwt then value_eqb kwt (zero_of S 8 (f_ty f2)) else true) &&
              conf_object st ot obj
           then Some st else None
         | None => None
@@ -332,6 +339,10 @@ Section Conf.
       let _ := (ATTRS, OBJS) in   (* used by codecs not dispatched yet: keeps the signature stable *)
       let n := t_name d in
       if String.eqb n "kmip.RequestBatchItem" then conf_request_item st d tag fs
+      else if String.eqb n "payloads.GetResponsePayload" then conf_typed_object 2 st d tag fs
+      else if String.eqb n "payloads.RegisterRequestPayload" then conf_typed_object 2 st d tag fs
+      else if String.eqb n "payloads.ExportResponsePayload" then conf_typed_object 3 st d tag fs
+      else if String.eqb n "payloads.ImportRequestPayload" then conf_import_request st d tag fs
       else None.
   End ConfCustoms.
 
